@@ -153,7 +153,7 @@ def _prelude(cx):
         return False, "cannot evaluate the prelude"
     defs = {}
     vals = {}
-    for _v, s in outs[:1]:
+    for _v, s in [o for o in outs if not __import__('models')._assertion_failure(o[1])][:1]:
         final_self = s.env.get(key)
         fieldname = {}
         if isinstance(final_self, tuple) and final_self and final_self[0] == "struct":
